@@ -26,8 +26,15 @@ pub fn prop() -> Prop {
 }
 
 fn one_status_cleared(rng: &mut Rng, reg: u32, mb: u64) -> u64 {
-    let bits: &[u32] = match reg { 40 => &[1, 14, 27], 50 => &[1, 12, 24, 35, 46], _ => &[1, 13, 24, 35, 46] };
-    mb & !(1u64 << (56 - *rng.pick(bits)))
+    // (status bit, last bit of its value field)
+    let fields: &[(u32, u32)] = match reg { 40 => &[(1, 13), (14, 26), (27, 39)], 50 => &[(1, 11), (12, 23), (24, 34), (35, 45), (46, 56)], _ => &[(1, 12), (13, 23), (24, 34), (35, 45), (46, 56)] };
+    let (sb, eb) = *rng.pick(fields);
+    let mut out = mb & !(1u64 << (56 - sb));
+    if rng.chance(0.5) {
+        // "not available": status clear and the whole field zero
+        for b in sb..=eb { out &= !(1u64 << (56 - b)); }
+    }
+    out
 }
 
 fn boundary50(rng: &mut Rng) -> F50 {
